@@ -22,6 +22,7 @@ def P2_facade(ctx):
     for m, gate in (('balance', 'ensure_healthy'), ('sload', 'ensure_healthy'), ('set_balance', 'ensure_mutable'), ('sstore', 'ensure_mutable')):
         f = ctx.method("precompile::ParallelPrecompileState<'_>", m)
         bad = []
+        badfw = []
         n = 0
         for p in feasible(f.paths()):
             for i, e in enumerate(p.events):
@@ -34,6 +35,13 @@ def P2_facade(ctx):
                     ok = [a for a in p.events[g[0]:i] if a.kind == 'atom' and mentions(a.d['term'], p.events[g[0]].d['result']) and a.d['outcome'] in ('Continue', 'Ok')]
                     if not ok:
                         bad.append(e)
+            # the journal is asked about exactly what the implementation named: the facade's arguments, in order
+            for e in p.events:
+                if e.kind == 'call' and 'EvmInternals' in e.d['callee']:
+                    got = [strip(a_) for a_ in e.d['args'][1:]]
+                    want = [('arg', 2 + k_) for k_ in range(len(got))]
+                    if got != want:
+                        badfw.append(e)
             # database error => recorded fault
             for a in p.events:
                 if a.kind == 'atom' and a.d['term'][0] == 'discr' and a.d['term'][1][0] == 'call' and 'EvmInternals' in a.d['term'][1][1] and a.d['outcome'] == 'Err':
@@ -41,6 +49,8 @@ def P2_facade(ctx):
                         bad.append(a)
         ctx.ob('P2', f, f'{gate}-dominates-the-journal-access', n >= 1 and not bad, '; '.join(site(f, e) for e in bad[:2]), site=f.loc(f.b['lo']),
                what='reads after a recorded fault and mutations in a static context must be refused BEFORE the journal is touched; a journal error must be recorded as the call\'s fault')
+        ctx.ob('P2', f, 'journal-access-forwards-the-arguments', not badfw, '; '.join(site(f, e) for e in badfw[:2]), site=f.loc(f.b['lo']),
+               what=f'{m}(address, ..) asks the journal about the same (address, key, value) in the same order')
     em = ctx.method("precompile::ParallelPrecompileState<'_>", 'ensure_mutable')
     bad = []
     rows = set()
